@@ -10,6 +10,10 @@
 // fails on the client ("ContentLength=N with Body length M") and is not
 // delivered intact; an unknown-length body is delivered as read (chunked); a
 // truncated response surfaces as io.ErrUnexpectedEOF from resp.Body.
+//
+// Modelling assumptions: no pipelining; connection reuse only as described at
+// Net.KeepAlive (the transport-level GetBody replay of net/http happens only on
+// a reused connection); a refused / unreachable host never consumes the body.
 package simhttp
 
 import (
@@ -92,13 +96,20 @@ type Net struct {
 	// HandlerPanics counts panics recovered from handlers (the real server
 	// recovers them per connection too).
 	HandlerPanics []string
-	old           http.RoundTripper
+	// KeepAlive models connection reuse: after a delivered response the next
+	// attempt from the same node to the same host runs on the reused
+	// connection, where the real transport transparently replays a consumed
+	// body that has GetBody. false (default) = every attempt is a fresh
+	// connection (server sent Connection: close) and no replay happens.
+	KeepAlive bool
+	idle      map[string]bool
+	old       http.RoundTripper
 }
 
 // Install creates the network and installs it as http.DefaultTransport until
 // the end of the run.
 func Install(s *simrt.Sim) *Net {
-	n := &Net{s: s, hosts: map[string]*Host{}}
+	n := &Net{s: s, hosts: map[string]*Host{}, idle: map[string]bool{}}
 	n.old = http.DefaultTransport
 	http.DefaultTransport = n
 	s.AtEnd(func() { http.DefaultTransport = n.old })
@@ -218,6 +229,27 @@ func (n *Net) RoundTrip(req *http.Request) (*http.Response, error) {
 		s.Logf("http#%d %s %s%s -> error %v", ex.Seq, ex.Method, ex.To, ex.Path, err)
 		return nil, err
 	}
+	// --- fault decision and connection establishment come first: the real
+	// transport does not touch the body when it cannot get a connection.
+	var f Fault
+	if n.FaultFn != nil && !n.Quiet {
+		f = n.FaultFn(ex)
+	}
+	ckey := from + ">" + req.URL.Host
+	host := n.hosts[req.URL.Host]
+	if host == nil || host.Down || host.Node.Dead || f.Kind == Refuse {
+		if f.Kind == Refuse {
+			ex.Fault = f
+			s.Fault(Refuse)
+		}
+		if req.Body != nil {
+			req.Body.Close()
+		}
+		delete(n.idle, ckey)
+		return fail(opErr("dial", syscall.ECONNREFUSED))
+	}
+	reused := n.KeepAlive && n.idle[ckey]
+	delete(n.idle, ckey)
 	// --- client side: produce the request body
 	var body []byte
 	if req.Body != nil && req.Body != http.NoBody {
@@ -231,6 +263,16 @@ func (n *Net) RoundTrip(req *http.Request) (*http.Response, error) {
 		if req.ContentLength == 0 {
 			ex.DeclaredLen = -1 // unknown length: chunked
 		}
+		if reused && len(body) == 0 && req.ContentLength > 0 && req.GetBody != nil {
+			// Reused keep-alive connection on which nothing was written: the
+			// real transport rewinds the body with GetBody and retries on a
+			// new connection, transparently to the caller.
+			if rb, err := req.GetBody(); err == nil {
+				body, _ = io.ReadAll(yieldReader{rb})
+				rb.Close()
+				s.Probe("http_transport_rewind")
+			}
+		}
 	}
 	ex.BodyLen = len(body)
 	h := sha256.Sum256(body)
@@ -242,21 +284,16 @@ func (n *Net) RoundTrip(req *http.Request) (*http.Response, error) {
 		ex.BodyErr = fmt.Sprintf("http: ContentLength=%d with Body length %d", ex.DeclaredLen, len(body))
 		return fail(errors.New(ex.BodyErr))
 	}
-	// --- fault decision
-	var f Fault
-	if n.FaultFn != nil && !n.Quiet {
-		f = n.FaultFn(ex)
-		if f.Kind == TruncReq {
-			if len(body) == 0 {
-				f.Kind = None
-			} else if f.K < 0 || f.K >= len(body) {
-				f.K = s.Tape.Draw(len(body))
-			}
+	if f.Kind == TruncReq {
+		if len(body) == 0 {
+			f.Kind = None
+		} else if f.K < 0 || f.K >= len(body) {
+			f.K = s.Tape.Draw(len(body))
 		}
-		ex.Fault = f
-		if f.Kind != None && f.Kind != TruncResp {
-			s.Fault(f.Kind)
-		}
+	}
+	ex.Fault = f
+	if f.Kind != None && f.Kind != TruncResp {
+		s.Fault(f.Kind)
 	}
 	if f.Latency > 0 {
 		simrt.Sleep(f.Latency)
@@ -264,9 +301,8 @@ func (n *Net) RoundTrip(req *http.Request) (*http.Response, error) {
 	if err := req.Context().Err(); err != nil {
 		return fail(err)
 	}
-	host := n.hosts[req.URL.Host]
-	if host == nil || host.Down || host.Node.Dead || f.Kind == Refuse {
-		return fail(opErr("dial", syscall.ECONNREFUSED))
+	if host.Down || host.Node.Dead {
+		return fail(opErr("read", syscall.ECONNRESET))
 	}
 	if f.Kind == ResetBefore {
 		return fail(opErr("read", syscall.ECONNRESET))
@@ -352,6 +388,9 @@ func (n *Net) RoundTrip(req *http.Request) (*http.Response, error) {
 	if req.Method == http.MethodHead {
 		resp.Body = http.NoBody
 		return resp, nil
+	}
+	if n.KeepAlive && f.Kind == None {
+		n.idle[ckey] = true
 	}
 	if f.Kind == TruncResp && len(out) > 0 {
 		if f.K < 0 || f.K >= len(out) {
